@@ -115,6 +115,26 @@ func VerifC02TotalOps2() {
 	touch(u)
 }
 
+// VerifC02TotalSchemeTables: configured special-scheme tables (default, +gopher, without file/ftp) x
+// two setter calls from the concrete value lists (protocol, host, hostname, port, pathname) on every
+// start URL: the state one setter leaves for the next under a different notion of "special".
+func VerifC02TotalSchemeTables() {
+	p := symbolicParser()
+	p.opts.specialSchemes = schemeTable(vnd.Pick(3))
+	starts := []string{"a:b", "a://h/p", "file:///C:/d", "file://h/d", "http://u:p@h:8/p?q#f", "gopher://h:70/p", "ftp://h/", "a:/p"}
+	u, err := p.Parse(starts[vnd.Pick(len(starts))])
+	if err != nil {
+		return
+	}
+	ops := []int{0, 3, 4, 5, 6}
+	for i := 0; i < 2; i++ {
+		op := ops[vnd.Pick(len(ops))]
+		vals := setterValues[op]
+		applySetter(u, opSetterNames[op], vals[vnd.Pick(len(vals))])
+	}
+	touch(u)
+}
+
 var ipv4Shapes = []ctx{{"1.2.3.", ""}, {"1.2.3.4.", ""}, {"0x", ".1"}, {"1.", ".3.4"}, {"", ".0.0.1"}, {"4294967", ""}, {"0xffffff", ""}, {"1.2.", ""}}
 
 // VerifC02TotalHosts: long address shapes (where index arithmetic lives) with a symbolic window,
@@ -158,6 +178,7 @@ func VerifC02TotalHosts() {
 
 func init() {
 	verifHarnesses["VerifC02TotalHosts"] = VerifC02TotalHosts
+	verifHarnesses["VerifC02TotalSchemeTables"] = VerifC02TotalSchemeTables
 	verifHarnesses["VerifC02TotalOps2"] = VerifC02TotalOps2
 	verifHarnesses["VerifC02TotalParseAbs"] = VerifC02TotalParseAbs
 	verifHarnesses["VerifC02TotalParseRel"] = VerifC02TotalParseRel
